@@ -343,7 +343,7 @@ def run_sequentialize(case) -> dict:
     import irispie as ir
     m = ir.Sequential.from_string(seq_source(case))
     before = _seq_state(m)
-    out = {"before": before}
+    out = {"before": before, "is_sequential_before": bool(m.is_sequential)}
     try:
         r = m.sequentialize()
         out["ok"] = [int(x) for x in r]
@@ -737,6 +737,14 @@ def falsify_seq_case(case):
     inp = {"source": src, "case": case}
     repro = "m = irispie.Sequential.from_string(source); m.sequentialize()"
     n = case["n"]
+    identity_causal = all(j < i for i in range(n) for j in case["deps"][i])
+    if o["is_sequential_before"] != identity_causal:
+        return [Failure("is_sequential:wrong", "is_sequential does not say whether the current equation order is causal",
+                        inp, o["is_sequential_before"], identity_causal,
+                        "irispie.Sequential.from_string(source).is_sequential")]
+    if "ok" in o and not o["is_sequential_after"]:
+        return [Failure("is_sequential:false-after-sequentialize", "is_sequential is False after a successful sequentialize",
+                        inp, False, True, repro + "; m.is_sequential")]
     if "ok" in o:
         order = o["ok"]
         if sorted(order) != list(range(n)):
@@ -806,6 +814,8 @@ def falsify(ctx, hints):
         fails += falsify_seq_case(gen_seq_model(rng))
         if len(fails) > 20:
             break
+    import json
+    fails.sort(key=lambda f: len(json.dumps(f.input, default=str)))      # smallest failing input first
     seen, uniq = set(), []
     for f in fails:
         if f.key not in seen:
